@@ -274,6 +274,11 @@ func (p *poller) readWriteLoop() {
 							c.onConnected = nil
 							c.resetRead()
 						}
+						// A writing event without a reading event would leave
+						// the fd disarmed in oneshot mode.
+						if isOneshot && ev.Events&epollEventsRead == 0 {
+							c.ResetPollerEvent()
+						}
 					}
 
 					if ev.Events&epollEventsRead != 0 {
@@ -516,11 +521,15 @@ func (c *Conn) ResetPollerEvent() {
 	p := c.p
 	g := p.g
 	fd := c.fd
-	if g.isOneshot && !c.closed {
-		if len(c.writeList) == 0 {
-			_ = p.resetRead(fd)
-		} else {
-			_ = p.modWrite(fd)
+	if g.isOneshot {
+		c.mux.Lock()
+		if !c.closed {
+			if len(c.writeList) == 0 {
+				_ = p.resetRead(fd)
+			} else {
+				_ = p.modWrite(fd)
+			}
 		}
+		c.mux.Unlock()
 	}
 }
